@@ -2,7 +2,7 @@
    spec-side token walk of the item (per-item lemma, by induction over encoding trees); re-encoding
    those tokens yields the preferred-width serialisation; each token carries the value of its head. *)
 From MC Require Import Bytes BytesFacts Monad Cbor Utf8 Half Decoder DecoderFacts IntFacts AdvFacts Encoder EncoderFacts Methods
-  Text Token Tokenizer Toks TokenFacts HeadFacts.
+  Text Token Tokenizer Toks TokenFacts HeadFacts Sweep16.
 From Coq Require Import Lia.
 Local Open Scope N_scope.
 
@@ -236,21 +236,13 @@ Proof. intros E <-. rewrite <- (app_nil_r (flat c)). apply encs_cons; [exact E|a
 Lemma fits_lt64 w n : fits w n = true -> n < 18446744073709551616.
 Proof. destruct w; cbn [fits]; intro H; apply N.ltb_lt in H; lia. Qed.
 
-(* all 2^16 half patterns *)
-Definition all16 : list N := map N.of_nat (seq 0 (N.to_nat 65536)).
-Lemma in_all16 b : b < 65536 -> In b all16.
-Proof.
-  intro H. unfold all16. rewrite <- (Nnat.N2Nat.id b). apply in_map. apply in_seq. lia.
-Qed.
-
-(* the half patterns that survive f16 -> f32 -> f16 are exactly the non-signalling ones *)
-Lemma snan16_exact_all : forallb (fun b => Bool.eqb (f32_to_f16 (f16_to_f32 b) =? b) (negb (snan16 b))) all16 = true.
-Proof. vm_compute. reflexivity. Qed.
-
+(* the half patterns that survive f16 -> f32 -> f16 are exactly the non-signalling ones
+   (exhaustive over the 2^16 patterns: Sweep16.forall16, whose enumeration is binary, not unary) *)
 Lemma snan16_exact b : b < 65536 -> (f32_to_f16 (f16_to_f32 b) =? b) = negb (snan16 b).
 Proof.
-  intro H. pose proof snan16_exact_all as A. rewrite forallb_forall in A.
-  specialize (A b (in_all16 b H)). now apply Bool.eqb_prop in A.
+  intro H. apply Bool.eqb_prop. revert b H.
+  apply (forall16 (fun b => Bool.eqb (f32_to_f16 (f16_to_f32 b) =? b) (negb (snan16 b)))).
+  vm_compute. reflexivity.
 Qed.
 
 Lemma f16_roundtrip b : b < 65536 -> snan16 b = false -> f32_to_f16 (f16_to_f32 b) = b.
